@@ -123,7 +123,8 @@ def tlc(module, cfg, workers=None, env=None, timeout=900, simulate=None, deque=F
         coverage=False, tags=("VEC",), keep_out=None, depth=None):
     """Run TLC on spec/<module>.tla with spec/<cfg>.  Returns a Tlc."""
     meta = workdir("tlc-" + module + "-" + hashlib.md5((cfg + str(time.time())).encode()).hexdigest()[:8])
-    opts = "-Xss%s -Xmx%s" % (xss, xmx)
+    # (TLC's scratch directory goes into the run's own metadir, which is removed afterwards, not into /tmp)
+    opts = "-Xss%s -Xmx%s -Djava.io.tmpdir=%s" % (xss, xmx, meta)
     if deque:
         opts += " -Dtlc2.tool.queue.IStateQueue=StateDeque"
     e = dict(os.environ)
